@@ -353,7 +353,16 @@ fn fmt_cmd(c: &[Option<Vec<u8>>]) -> String {
 
 const NUMKEYS_PREFIX: &[u8] = b"ERR: Invalid `numkeys` ";
 const UNEXPECTED_PREFIX: &[u8] = b"unexpected reply from ";
-const MSET_ARGS: &[u8] = b"ERR wrong number of arguments for 'mset' command";
+const SENTINEL: &[u8] = b"VSENTINEL";
+
+fn is_sentinel(c: &[Option<Vec<u8>>]) -> bool {
+    let c = if c.len() >= 2 && c[0].as_deref().map(|n| upper(n) == b"UMFORWARD").unwrap_or(false) {
+        &c[2..]
+    } else {
+        c
+    };
+    matches!(c.get(0), Some(Some(n)) if n.as_slice() == SENTINEL)
+}
 
 fn canon_reply(r: RespVec) -> RespVec {
     match r {
@@ -412,25 +421,43 @@ fn run_route(rt: &tokio::runtime::Runtime, toks: &[&str]) -> String {
         Err(_) => return "panic".to_string(),
     };
     let head = match res {
-        Sent::Reply(r) => {
-            let r = canon_reply(r);
-            if let Resp::Error(e) = &r {
-                if e.as_slice() == MSET_ARGS {
-                    // MSET with a missing value answers before its already-sent SETs reach the backends
-                    rt.block_on(async { tokio::time::sleep(Duration::from_millis(40)).await });
+        Sent::Reply(r) => format!("reply {}", resp_to_string(&canon_reply(r))),
+        Sent::Canceled => "canceled".to_string(),
+    };
+    // Quiescence before the log is read.  A reply can come back while sub commands that were already handed to a backend
+    // sender are still in flight (MSET with a missing value answers right after dispatching its SETs).  Every sender is a
+    // FIFO channel feeding ONE connection (backend_conn_num = 1) whose replies are produced in order by the recording
+    // closure, so a sentinel command routed to the same node and answered proves that everything dispatched to that node
+    // before it has been recorded.  One sentinel per node that can receive anything: every local node, and every peer under
+    // active redirection; a node without a slot can never be sent anything.
+    if cfg.named {
+        let local_l = parse_layout(toks[1]);
+        let peer_l = parse_layout(toks[2]);
+        let mut slots: Vec<usize> = vec![];
+        for (_, rs) in local_l.iter().chain(peer_l.iter().filter(|_| cfg.ar)) {
+            if let Some((s, _)) = rs.iter().find(|(s, e)| s <= e && *s < SLOT_NUM) {
+                slots.push(*s);
+            }
+        }
+        let drained = rt.block_on(async {
+            for s in slots {
+                let cmd = vec![Some(SENTINEL.to_vec()), Some(crate::topo::key_for_slot(s))];
+                match tokio::time::timeout(Duration::from_secs(20), send_cmd(&proxy.handler, cmd)).await {
+                    Ok(_) => (),
+                    Err(_) => return false,
                 }
             }
-            format!("reply {}", resp_to_string(&r))
+            true
+        });
+        if !drained {
+            return "drain-timeout".to_string();
         }
-        Sent::Canceled => {
-            rt.block_on(async { tokio::time::sleep(Duration::from_millis(40)).await });
-            "canceled".to_string()
-        }
-    };
+    }
     let mut items: Vec<String> = proxy
         .log
         .lock()
         .iter()
+        .filter(|(_, c)| !is_sentinel(c))
         .map(|(a, c)| format!("{} {}", a, fmt_cmd(c)))
         .collect();
     items.sort();
